@@ -21,8 +21,18 @@ let n_of_int (i : int) : n = if i = 0 then N0 else Npos (pos_of_int i)
 let rec int_of_pos = function XH -> 1 | XO p -> 2 * int_of_pos p | XI p -> 2 * int_of_pos p + 1
 let int_of_n = function N0 -> 0 | Npos p -> int_of_pos p
 (* OCaml ints are 63-bit: enough for nanosecond times, 32-bit nonces/tokens and 64-bit-free ids used here *)
-let n_of_dec (s : string) : n = n_of_int (int_of_string s)
-let dec_of_n (x : n) : string = string_of_int (int_of_n x)
+(* numbers up to 2^64-1 occur (FIB costs): the slow path goes through Coq's N *)
+let n10 = n_of_int 10
+let n_of_dec (s : string) : n =
+  if String.length s <= 17 then n_of_int (int_of_string s)
+  else begin
+    let acc = ref N0 in
+    String.iter (fun c -> acc := N.add (N.mul !acc n10) (n_of_int (Char.code c - 48))) s; !acc
+  end
+let big = n_of_int 1000000000000000000
+let rec dec_of_n (x : n) : string =
+  if N.ltb x big then string_of_int (int_of_n x)
+  else dec_of_n (N.div x n10) ^ string_of_int (int_of_n (N.modulo x n10))
 
 let bytes_of_hex (h : string) : n list =
   if h = "-" then [] else
@@ -301,7 +311,11 @@ let () =
             | WPacket (EData (_, d)) -> c09_inbound_violation pre0.faces d.d_face d.d_name
             | _ -> false in
           if inbound && (outs_impl <> [] || (match !prev_obs with Some p -> p <> obs_now | None -> false)) then
-            Printf.printf "ORACLE C09 %s %d scope-in | a /localhost packet from a non-local face was not ignored (outputs or table state changed)\n" caseid !evno
+            Printf.printf "ORACLE C09 %s %d scope-in%s | a /localhost packet from a %s was not ignored (outputs or table state changed)\n" caseid !evno
+              (match we with WPacket (EInterest (_, i)) when get_face pre0.faces i.i_face = None -> ":unknown-face"
+                           | WPacket (EData (_, d)) when get_face pre0.faces d.d_face = None -> ":unknown-face" | _ -> "")
+              (match we with WPacket (EInterest (_, i)) when get_face pre0.faces i.i_face = None -> "face that is not (or no longer) in the face table"
+                           | WPacket (EData (_, d)) when get_face pre0.faces d.d_face = None -> "face that is not (or no longer) in the face table" | _ -> "non-local face")
         end;
         let oracle1 fmt = if want "C01" then Printf.printf fmt else Printf.ifprintf stdout fmt in
         (* slots pending by the history before this event (used by the dead-nonce oracle below) *)
